@@ -125,7 +125,7 @@ func runCPUPaths(b *harness.B) {
 		b.Inconclusive("this CPU/environment has no AVX2: the assembly path could not be exercised")
 	}
 	ps := placements()
-	n := b.Pick(70000, 700000)
+	n := b.Pick(250000, 2500000)
 	var blocks [256]byte
 	canaryPage := bytes.Repeat([]byte{canary}, len(inR.mid))
 	copy(inR.mid, canaryPage)
